@@ -81,6 +81,7 @@ def main(argv=None):
         j.setdefault("limits", {})
         lim = dict(meta.get("limits", {}).get(args.tier, {}))
         lim.update(j["limits"])
+        lim.setdefault("job_timeout_s", 600 if args.tier == "quick" else 3600)
         j["limits"] = lim
         j["seed"] = seed
         j.setdefault("validate_every", meta.get("validate_every", {}).get(args.tier, 1))
